@@ -74,8 +74,13 @@ def operators(base, secs):
                 if sname == "Potential-Form":
                     label = k.split("(")[0]
                     yield "form-other-parameter-list", with_dup("%s(r,p,q,s)" % label), (k, "%s(r,p,q,s)" % label)
+                    # the formula language is case-insensitive: a label in another case names the same function inside every formula
+                    if label.upper() != label:
+                        yield "form-label-other-case", with_dup("%s(%s" % (label.upper(), k.split("(", 1)[1])), (k, "%s(%s" % (label.upper(), k.split("(", 1)[1]))
     if any(s[0] == "Potential-Form" for s in secs):
-        for nm, opname in (("myform", "table-form-named-like-custom-form"), ("as.zero", "table-form-named-like-builtin-form"), ("as.buck", "table-form-named-like-builtin-form")):
+        # (as.buck4 exists as a factory only - it is not a function of potentialfunctions - but it is a built-in form all the same)
+        for nm, opname in (("myform", "table-form-named-like-custom-form"), ("as.zero", "table-form-named-like-builtin-form"), ("as.buck", "table-form-named-like-builtin-form"),
+                           ("as.buck4", "table-form-named-like-builtin-form")):
             new = [list(x) for x in secs] + [["Table-Form:%s" % nm, [["x", "0 1 2 3 4"], ["y", "5 5 5 5 5"]]]]
             yield opname, new, (nm, "Table-Form:" + nm)
 
